@@ -27,7 +27,7 @@ NULLTERM_OK = {"uint8", "int16", "uint24", "int48", "uint64", "char", "wchar", "
 FORMS = [
     ("[0]", 0, {}), ("[1]", 1, {}), ("[3]", 3, {}),
     ("[n0]", "n0", {}), ("[n0*2]", "n0*2", {}), ("[n0-2]", "n0-2", {}), ("[K]", "K", {"K": 2}), ("[K+n0]", "K+n0", {"K": 2}),
-    ("[n0]#n0=7", "n0", {"n0": 7}), ("[2+n0*K]", "2+n0*K", {"K": 3}), ("[]", None, {}), ("[EOF]", EOF, {}),
+    ("[ak]", "ak", {}), ("[ak*2-n0]", "ak*2-n0", {}), ("[2-3]", "2-3", {}), ("[K-3]", "K-3", {"K": 2}), ("[K-K]", "K-K", {"K": 2}), ("[n0]#n0=7", "n0", {"n0": 7}), ("[2+n0*K]", "2+n0*K", {"K": 3}), ("[]", None, {}), ("[EOF]", EOF, {}),
 ]
 INNER_DIMS = [("[2][3]", (2, 3)), ("[n0][2]", ("n0", 2)), ("[2][n0]", (2, "n0")), ("[3][1]", (3, 1)), ("[EOF][n0]", (EOF, "n0")), ("[EOF][2]", (EOF, 2))]
 
@@ -66,7 +66,11 @@ def build(ename, flabel, pos):
             if lab == flabel:
                 t = TArr(e, count)
                 consts = c
-    fs = [TField("n0", INTS["uint8"]), TField("f", t)]
+    fs = [TField("n0", INTS["uint8"])]
+    if "ak" in flabel:
+        # the count comes from a member of an anonymous structure read before the array (a field of the parent, too)
+        fs.append(TField(None, TStruct("__anon_k", (TField("ak", INTS["uint8"]), TField("al", INTS["uint8"])))))
+    fs.append(TField("f", t))
     if pos == "mid":
         fs.append(TField("tail", INTS["uint16"]))
     st = TStruct("S", tuple(fs))
